@@ -120,6 +120,7 @@ type VC struct {
 	edgeReach  map[[2]int]string
 	compType   map[string]types.Type // component -> Go type of the stored value
 	epochTop   map[int]string        // epoch -> allocTop when it started
+	siteHits   map[*SiteSpec]int
 }
 
 type loopInfo struct {
@@ -142,7 +143,7 @@ func newVC(w *World, cs *Contracts, ms *ModSets, fn *ssa.Function, spec *FuncSpe
 		notes: map[string]bool{}, unsupp: map[string]bool{}, assumedUse: map[string]bool{},
 		callOrd: map[string]int{}, panicOrd: map[string]int{}, sumDefs: map[string]bool{},
 		closures: map[ssa.Value]*ssa.MakeClosure{}, edgeReach: map[[2]int]string{},
-		compType: map[string]types.Type{}, epochTop: map[int]string{}}
+		compType: map[string]types.Type{}, epochTop: map[int]string{}, siteHits: map[*SiteSpec]int{}}
 	vc.prelude()
 	return vc
 }
